@@ -81,9 +81,13 @@ class Scheduler:
         failures = [(ci, v) for ci, ok, v in self.completed if not ok]
         if failures:
             raise failures[0][1]   # the first *recorded* failure (completion order), after ALL chunks finished
-        out = []
-        for ci in range(len(chunks)):
-            out.extend(self.results[ci])
+        # MapResult._set: a list of n placeholders, each finished chunk assigned to ITS slice in completion order (a chunk cut short by a
+        # StopIteration is shorter than its slice, so the list shrinks and later slices shift - exactly what the stdlib does)
+        cs = len(chunks[0])
+        out = [None] * sum(len(c) for c in chunks)
+        for ci, ok, _ in self.completed:
+            if ok:
+                out[ci * cs:(ci + 1) * cs] = self.results[ci]
         return out
 
     def _enabled(self, running):
@@ -118,9 +122,14 @@ class Scheduler:
                 ci, chunk = self.queue.pop(0)
                 try:
                     res = []
-                    for t in chunk:
-                        res.append(self.func(t))
-                        self.task_completion_order.append((ci, len(res) - 1))
+                    try:
+                        for t in chunk:
+                            res.append(self.func(t))
+                            self.task_completion_order.append((ci, len(res) - 1))
+                    except StopIteration:
+                        # the stdlib runs a chunk as list(map(func, chunk)): a StopIteration escaping from func ends the map
+                        # silently - the chunk "succeeds" with the results so far and the rest of it is skipped
+                        pass
                     self.results[ci] = res
                     self.completed.append((ci, True, None))
                 except Exception as e:  # the stdlib worker loop traps Exception only
